@@ -150,7 +150,7 @@ func runC05(c *Ctx) {
 		okR := true
 		for _, b := range fn.Blocks {
 			if ret, isR := b.Instrs[len(b.Instrs)-1].(*ssa.Return); isR {
-				r := ret.Results[1]
+				r := retResult(ret, 1)
 				if isNilConst(r) {
 					continue
 				}
@@ -188,7 +188,7 @@ func runC05(c *Ctx) {
 		for _, cl := range cv.AnonFuncs {
 			for _, s := range successReturns(cl, 1) {
 				ret := s.Instr.(*ssa.Return)
-				call, _ := callOf(ret.Results[0])
+				call, _ := callOf(retResult(ret, 0))
 				if call != nil && matchFunc(calleeObj(call), Ref{"cert", "CAPool", "VerifyCertificate"}) {
 					a := callArgs(call)
 					now, _ := callOf(a[1])
